@@ -87,7 +87,13 @@ def run(ctx):
             ctx.decide(got == want, "C10.meta", construct, loc_of(mu), f"returned population carries {fld}",
                        f"{fld} of the returned population is {T.show(got)[:100] if got else 'unset'}", disc=fld)
     ctx.floor("concrete mutate implementations", n_mut, 3)
+    init_rule(ctx)
+    rest_rules(ctx)
 
+
+def init_rule(ctx):
+    """C10.init on its own (shared with C02: the weights pair the three densities of one draw)."""
+    repo = ctx.repo
     # ------------------------------------------------------------ initial population
     mc = repo.cls("aspire.samplers.mcmc:MCMCSampler")
     di = mc.methods.get("draw_initial_samples")
@@ -204,6 +210,11 @@ def run(ctx):
             ctx.decide(okr, "C10.init", construct, loc_of(di, lk[0].node), "the likelihood of the final set is stored on it and that set is returned",
                        "the returned set is not the one whose likelihood was evaluated and stored", disc="final")
 
+
+
+def rest_rules(ctx):
+    repo = ctx.repo
+    smc = repo.cls(SMC)
     # ------------------------------------------------------------ final enlargement: resample at beta=1 to the requested size, then mutate
     from .smcloop import fold_sample, roles
     sfe = fold_sample(repo, resumed=False, final=True)
